@@ -221,7 +221,7 @@ func c19GetEnv() *c19Env {
 }
 
 func (e *c19Env) serve(w http.ResponseWriter, r *http.Request) {
-	rq := c19Req{Scheme: "http", Host: r.Host, Path: r.URL.Path, Follow: strings.HasPrefix(r.URL.Path, "/_landed/")}
+	rq := c19Req{Scheme: "http", Host: r.Host, Path: r.URL.Path, Follow: strings.HasPrefix(r.URL.Path, "/_landed")}
 	if r.TLS != nil {
 		rq.Scheme = "https"
 	}
@@ -734,7 +734,8 @@ func c19Gen(r *rand.Rand, kind string) c19Case {
 }
 
 // with some probability make the server answer the given URL with a 302 to a related or
-// unrelated host (the landing path is under /_landed/)
+// unrelated host (the landing path is under /_landed/); now and then the landing place
+// redirects again (up to three hops), every hop to a variant of the ORIGINAL host
 func c19MaybeRedirect(r *rand.Rand, c *c19Case, href string) {
 	if r.Intn(4) != 0 {
 		return
@@ -743,11 +744,26 @@ func c19MaybeRedirect(r *rand.Rand, c *c19Case, href string) {
 	if err != nil || u.Host == "" {
 		return
 	}
-	_, s2, h2 := c19Variant(r, u.Scheme, u.Host)
-	if i := strings.LastIndex(h2, "@"); i >= 0 {
-		h2 = h2[i+1:]
+	key := c19WireHost(u.Host) + u.Path
+	for hop := 1; hop <= 3; hop++ {
+		_, s2, h2 := c19Variant(r, u.Scheme, u.Host)
+		if i := strings.LastIndex(h2, "@"); i >= 0 {
+			h2 = h2[i+1:]
+		}
+		path := "/_landed/a-1.0.0.tgz"
+		if hop > 1 {
+			path = fmt.Sprintf("/_landed%d/a-1.0.0.tgz", hop)
+		}
+		if _, dup := c.Redirect[key]; dup {
+			return
+		}
+		c.Redirect[key] = s2 + "://" + h2 + path
+		d, err := url.Parse(c.Redirect[key])
+		if err != nil || r.Intn(3) != 0 {
+			return
+		}
+		key = d.Host + d.Path
 	}
-	c.Redirect[c19WireHost(u.Host)+u.Path] = s2 + "://" + h2 + "/_landed/a-1.0.0.tgz"
 }
 
 func (*c19) Decode(raw json.RawMessage) (any, error) {
@@ -904,12 +920,27 @@ func (*c19) Corpus() []any {
 			{Name: "plain", URL: "http://private.corp.test/charts", URLs: []string{"http://private.corp.test/charts/a-1.0.0.tgz"}},
 			{Name: "private", URL: "https://private.corp.test/charts", User: "user-private", Pass: "pw-private", URLs: []string{"http://private.corp.test/charts/a-1.0.0.tgz"}}},
 			Note: "manager-foreign-owner-scheme"},
-		// net/http keeps the Authorization header when redirected to the same host name on
-		// another port / scheme or to a sub-domain (related domain: observed, not flagged); on a
-		// redirect to an unrelated domain it must be gone
+		// KNOWN FINDINGS K-C19-1a/b/c: Helm installs no CheckRedirect, and net/http keeps the
+		// Authorization header when redirected to the same host name on another port (a), another
+		// scheme (b) or to a sub-domain (c): the pair reaches an origin other than the repository's
+		// although pass-credentials is off.  On a redirect to an unrelated domain it is gone, and
+		// stays gone when the chain comes back (sticky).
 		c19Case{Kind: "getter", Ctor: []c19Opt{{K: "url", A: "https://repo.example/charts"}, {K: "auth", A: "user-g", B: "pw-g"}},
 			Gets:     []c19Get{{Href: "https://repo.example/charts/a-1.0.0.tgz"}},
-			Redirect: map[string]string{"repo.example/charts/a-1.0.0.tgz": "http://repo.example:8080/_landed/a-1.0.0.tgz"}, Note: "redirect-related"},
+			Redirect: map[string]string{"repo.example/charts/a-1.0.0.tgz": "https://repo.example:8443/_landed/a-1.0.0.tgz"}, Note: "redirect-other-port (K-C19-1a)"},
+		c19Case{Kind: "getter", Ctor: []c19Opt{{K: "url", A: "https://repo.example/charts"}, {K: "auth", A: "user-g", B: "pw-g"}},
+			Gets:     []c19Get{{Href: "https://repo.example/charts/a-1.0.0.tgz"}},
+			Redirect: map[string]string{"repo.example/charts/a-1.0.0.tgz": "http://repo.example:8080/_landed/a-1.0.0.tgz"}, Note: "redirect-other-scheme (K-C19-1b)"},
+		c19Case{Kind: "getter", Ctor: []c19Opt{{K: "url", A: "https://repo.example/charts"}, {K: "auth", A: "user-g", B: "pw-g"}},
+			Gets:     []c19Get{{Href: "https://repo.example/charts/a-1.0.0.tgz"}},
+			Redirect: map[string]string{"repo.example/charts/a-1.0.0.tgz": "https://cdn.repo.example/_landed/a-1.0.0.tgz"}, Note: "redirect-subdomain (K-C19-1c)"},
+		c19Case{Kind: "download", Ref: "private/a", Repos: []c19Repo{
+			{Name: "private", URL: "https://private.corp.test/charts", User: "user-private", Pass: "pw-private", URLs: []string{"a-1.0.0.tgz"}}},
+			Redirect: map[string]string{"private.corp.test/charts/a-1.0.0.tgz": "http://private.corp.test/_landed/a-1.0.0.tgz"}, Note: "redirect-other-scheme (K-C19-1b), downloader"},
+		c19Case{Kind: "getter", Ctor: []c19Opt{{K: "url", A: "https://repo.example/charts"}, {K: "auth", A: "user-g", B: "pw-g"}},
+			Gets: []c19Get{{Href: "https://repo.example/charts/a-1.0.0.tgz"}},
+			Redirect: map[string]string{"repo.example/charts/a-1.0.0.tgz": "https://cdn.other.test/_landed/a-1.0.0.tgz",
+				"cdn.other.test/_landed/a-1.0.0.tgz": "https://repo.example/_landed2/a-1.0.0.tgz"}, Note: "redirect-unrelated-and-back (sticky)"},
 		c19Case{Kind: "getter", Ctor: []c19Opt{{K: "url", A: "https://repo.example/charts"}, {K: "auth", A: "user-g", B: "pw-g"}},
 			Gets:     []c19Get{{Href: "https://repo.example/charts/a-1.0.0.tgz"}},
 			Redirect: map[string]string{"repo.example/charts/a-1.0.0.tgz": "https://cdn.other.test/_landed/a-1.0.0.tgz"}, Note: "redirect-unrelated"},
@@ -1139,6 +1170,9 @@ func c19Tables(c *c19Case, obs *c19Obs) {
 	add(c.Ref)
 	add(c.RepoURL)
 	add(c.DepRepo)
+	for _, loc := range c.Redirect {
+		add(loc)
+	}
 	resolveAll := func(base string, urls []string) {
 		for _, x := range urls {
 			add(x)
@@ -1258,17 +1292,30 @@ func c19HostName(h string) string {
 	return strings.ToLower(h)
 }
 
-// Redirect follow-ups.  The property forbids credentials on "redirects to an unrelated
-// domain".  net/http forwards the Authorization header only to a target whose host NAME is the
-// initial one or a sub-domain of it (any port, any scheme) — a related domain, which the
-// property text leaves to the HTTP client; such follow-ups are counted (report.extra), not
-// flagged.  A pair arriving at any other redirect target is a violation ("" = not flagged).
-func c19RedirectSig(first, dest string) string {
-	a, b := c19HostName(first), c19HostName(dest)
-	if a == b || strings.HasSuffix(b, "."+a) {
-		n, _ := hx.Extra["redirects_to_related_host_forwarding_authorization (net/http policy, observed)"].(int)
-		hx.Extra["redirects_to_related_host_forwarding_authorization (net/http policy, observed)"] = n + 1
-		return ""
+// Redirect follow-ups.  Helm attaches the pair to the first hop only; net/http (Helm installs no
+// CheckRedirect) copies the Authorization header to a follow-up whose host NAME is the initial
+// one or a sub-domain of it, whatever the scheme and the port.  A follow-up that carries the
+// pair of source S without pass-credentials and is not on S's origin breaks the property text
+// ("scheme, host and port equal"); the signature says how the target relates to S's URL:
+//
+//	redirect-same-host-other-port-keeps-credentials     known finding K-C19-1a
+//	redirect-same-host-other-scheme-keeps-credentials   known finding K-C19-1b
+//	redirect-subdomain-keeps-credentials                known finding K-C19-1c
+//	redirect-unrelated-host-keeps-credentials           never observed on the unchanged tree
+func c19RedirectSig(srcURL string, rq c19Req) string {
+	su, err := url.Parse(srcURL)
+	if err != nil {
+		return "redirect-unrelated-host-keeps-credentials"
+	}
+	a, b := strings.ToLower(su.Hostname()), c19HostName(rq.Host)
+	b = strings.TrimSuffix(strings.TrimPrefix(b, "["), "]")
+	switch {
+	case a == b && strings.ToLower(su.Scheme) != rq.Scheme:
+		return "redirect-same-host-other-scheme-keeps-credentials"
+	case a == b:
+		return "redirect-same-host-other-port-keeps-credentials"
+	case strings.HasSuffix(b, "."+a) && !strings.Contains(b, ":"):
+		return "redirect-subdomain-keeps-credentials"
 	}
 	return "redirect-unrelated-host-keeps-credentials"
 }
@@ -1415,12 +1462,9 @@ func (*c19) Oracle(ci, oi any) []hx.Violation {
 			if !s.pa && c19Origin(rq.Scheme, rq.Host) != c19OriginOfURL(s.url) {
 				sig := "getter-foreign-origin"
 				if rq.Follow {
-					sig = c19RedirectSig(first, rq.Host)
+					sig = c19RedirectSig(s.url, rq)
 				}
-				if sig == "" {
-					continue
-				}
-				flag(sig, fmt.Sprintf("getter configured for %q sent its credentials to %s://%s%s without pass-credentials", s.url, rq.Scheme, rq.Host, rq.Path))
+				flag(sig, fmt.Sprintf("getter configured for %q sent its credentials to %s://%s%s without pass-credentials (first hop %s)", s.url, rq.Scheme, rq.Host, rq.Path, first))
 			}
 		}
 		return vs
@@ -1453,12 +1497,9 @@ func (*c19) Oracle(ci, oi any) []hx.Violation {
 			s := matched[0]
 			sig := c.Kind + "-foreign-origin"
 			if rq.Follow {
-				sig = c19RedirectSig(first, rq.Host)
+				sig = c19RedirectSig(s.url, rq)
 			}
-			if sig == "" {
-				continue
-			}
-			flag(sig, fmt.Sprintf("%s: credentials of %s (%s) were sent to %s://%s%s without pass-credentials", c.Kind, s.what, s.url, rq.Scheme, rq.Host, rq.Path))
+			flag(sig, fmt.Sprintf("%s: credentials of %s (%s) were sent to %s://%s%s without pass-credentials (first hop %s)", c.Kind, s.what, s.url, rq.Scheme, rq.Host, rq.Path, first))
 		}
 	}
 	return vs
@@ -1516,9 +1557,6 @@ func (*c19) CoqCase(ci, oi any) string {
 		repos = append(repos, c19CoqEntry(rp))
 	}
 	for _, rq := range obs.Reqs {
-		if rq.Follow {
-			continue
-		}
 		reqs = append(reqs, fmt.Sprintf("mkObs %s %s %s %s", hx.CoqStr(rq.Scheme), hx.CoqStr(rq.Host), hx.CoqStr(rq.Path),
 			hx.CoqOpt(hx.CoqPair(hx.CoqStr(rq.User), hx.CoqStr(rq.Pass)), rq.Auth)))
 	}
@@ -1552,7 +1590,15 @@ func (*c19) CoqCase(ci, oi any) string {
 	}
 	perr := append([]string(nil), obs.ParseErr...)
 	sort.Strings(perr)
-	return fmt.Sprintf("mkCase %s %s %s %s %s (%s) %s", hx.CoqList(parse), hx.CoqStrList(perr), hx.CoqList(equal), hx.CoqList(tab), hx.CoqList(repos), path, hx.CoqList(reqs))
+	var rkeys, redir []string
+	for k := range c.Redirect {
+		rkeys = append(rkeys, k)
+	}
+	sort.Strings(rkeys)
+	for _, k := range rkeys {
+		redir = append(redir, hx.CoqPair(hx.CoqStr(k), hx.CoqStr(c.Redirect[k])))
+	}
+	return fmt.Sprintf("mkCase %s %s %s %s %s %s (%s) %s", hx.CoqList(parse), hx.CoqStrList(perr), hx.CoqList(equal), hx.CoqList(tab), hx.CoqList(redir), hx.CoqList(repos), path, hx.CoqList(reqs))
 }
 
 func (*c19) Class(ci, oi any) string {
